@@ -116,19 +116,19 @@ NOT_YET = {}
 ADDENDA = {
     "C19": " Clock pulses on the shared SPI bus while the slave is deselected.",
     "C18": " Enumerated sub-check all-widths: every data width 9..128 with single flips at boundary / power-of-two positions (thorough: all positions).",
-    "C07": " An SRAM wired as an unselected slave of the same bus (cyc low) must neither answer nor change.",
+    "C07": " An SRAM wired as an unselected slave of the same bus (cyc low) must neither answer nor change. Word-addressed remapper with its default size.",
     "C04": " Consumers whose ready answers valid; dispatcher selector values that designate no slave; depacketizer packets ending in the residue word.",
-    "C02": " The same design elaborated repeatedly in one process must give the same text; user ports called like clock-domain signals; the clock of every always block must be the namespace's name of a domain clock.",
-    "C01": " Driven signals are also made ports of the converted module (output wire / output reg): port directions and the net/variable legality of every assignment in the emitted text (IEEE 1364 6.1, 9.2) are part of the oracle. Sparse stimuli (one input changes per instant), a combinatorial demultiplexer whose select nothing else reads, inputs called like clock-domain signals.",
+    "C02": " The same design elaborated repeatedly in one process must give the same text; user ports called like clock-domain signals; the clock of every always block must be the namespace's name of a domain clock. Names differing in case only; first-level sub-module signals as ports.",
+    "C01": " Driven signals are also made ports of the converted module (output wire / output reg): port directions and the net/variable legality of every assignment in the emitted text (IEEE 1364 6.1, 9.2) are part of the oracle. Sparse stimuli (one input changes per instant), a combinatorial demultiplexer whose select nothing else reads, inputs called like clock-domain signals. Case on the complement of an unsigned selector.",
     "C03": " Pack/Unpack ratios up to 8, converter ratios 5/6, stride ratios 6/8. Consumers whose ready answers valid.",
     "C05": " Sub-check uart-core-cdc: UART(phy_cd != sys) with its software side driven through a real CSR bank in sys and the PHY side in another domain.",
-    "C06": " Topology 'socbus': the interconnect SoCBusHandler.do_finalize composes from masters / slaves / regions declared through its API (shared or crossbar requested; point-to-point only for one master and one slave at origin 0). Masters of different address widths on one interconnect.",
+    "C06": " Topology 'socbus': the interconnect SoCBusHandler.do_finalize composes from masters / slaves / regions declared through its API (shared or crossbar requested; point-to-point only for one master and one slave at origin 0). Masters of different address widths on one interconnect. Regions declared first and slaves bound by name later in another order.",
     "C08": " Sub-check axilite-deep-queues: AXILiteArbiter with 4..8 requests of one direction outstanding at a queueing slave while other masters compete. AXI-Lite masters of different address widths.",
     "C09": " AXILite2CSR also receives partial write strobes (any non-zero strobe writes the word).",
     "C10": " R stalls with varying id / resp through AXIDownConverter; single beats of intermediate size at ratio 4/8; transfers not wider than the narrow bus are a recorded known finding (not generated).",
-    "C11": " The SoC error counter is also started close to its maximum (saturation). Enumerated sub-check socbus-timeout: buses composed by SoCBusHandler with a timeout configured.",
+    "C11": " The SoC error counter is also started close to its maximum (saturation). Enumerated sub-check socbus-timeout: buses composed by SoCBusHandler with a timeout configured. The controller's CPU reset bit written during the SoC history.",
     "C12": " CSR bus address widths 15/16 with banks in the pages only the extra address bits reach.",
-    "C13": " Uncached regions declared at fixed origins must lie inside an IO region (origins generated around the ends of declared IO regions). Reserved CSR locations given at construction; generated-form master names; region requests nested in / overlapping earlier ones with linker-only regions inside.",
+    "C13": " Uncached regions declared at fixed origins must lie inside an IO region (origins generated around the ends of declared IO regions). Reserved CSR locations given at construction; generated-form master names; region requests nested in / overlapping earlier ones with linker-only regions inside. Regions without decoding (decode=False) next to others: the bus's own finalisation decides; known finding: regions smaller than one bus word.",
     "C14": " atomic_write storages written through the published accessor order; CSR memory windows wider than the CSR word and larger than one page, accessed through the published page register; registers made of fields: header OFFSET/SIZE macros, SVD bit-range pieces and the hardware's field signals.",
     "C15": " Sub-checks uart-client and timer-client: the UART and Timer cores' own event managers (pending cleared by software's write-one only, also with rx_fifo_rx_we).",
     "C16": " Header field names are generated in an order unrelated to the fields' positions. Dispatcher selector values that designate no slave.",
